@@ -264,11 +264,18 @@ def _run(ctx, pq):
         ragged_hive = rng.random() < 0.5
         names = rng.sample(["a", "b", "c_1", "dir0", "Key"], depth)
         kinds = [rng.choice(KINDS + [None, None]) for _ in range(depth)]
+        # drill levels WITHOUT text that mix kinds colliding under Python's == (1 == 1.0 == True == 1e0 == 01): C08_drill_numeric_level
+        numfam = shape == "drill" and rng.random() < 0.3
+        if numfam:
+            kinds = [None] * depth
         pools = []
         any_time = any(kd is not None and (kd[0] in (4, 7) or (kd[0] == 5 and len(kd) > 1 and kd[1][0] in (4, 7)))
                        for kd in kinds)     # "now" is the wall clock for time kinds
         for kd in kinds:
             pool = []
+            if numfam:
+                pools.append(rng.sample(["1", "1.0", "True", "2", "2.5", "0", "False", "1e0", "01", "0.0", "-0", "2.0", "10", "1_0"], rng.choice([2, 3, 4])))
+                continue
             for _ in range(rng.choice([1, 2, 3])):
                 if kd is None or rng.random() < 0.3:
                     pool.append(rng.choice([t for t in ADVERSARIAL if L.legal_text(t, True)
@@ -363,6 +370,18 @@ def _run(ctx, pq):
                     if got.get(k) != want_l:
                         ctx.fail({"component": "_path_to_cats", "scheme": "drill", "stage": "mixed-level-labels"}, case,
                                  "drill level %s holds text: labels %r, its directory texts %r" % (k, sorted(got.get(k, [])), sorted(want_l)))
+                else:
+                    # C08_drill_numeric_level on the real code: no text in the level - every label is the guess of one of its directory
+                    # texts, and every directory text has a label == (Python's ==) to its guess
+                    ctx.count("D.mixed_level", "no text: %d kinds" % len({type(util._val_to_num(t)).__name__ for t in texts}))
+                    raw = api.paths_to_cats(paths, pm)[1].get(k, [])
+                    guesses = [util._val_to_num(t) for t in texts]
+                    bad_l = [lab for lab in raw if not any(type(lab) is type(g) and (lab == g or (lab != lab and g != g)) for g in guesses)]
+                    bad_t = [t for t, g in zip(texts, guesses) if not any(lab == g or (lab != lab and g != g) for lab in raw)]
+                    if bad_l or bad_t:
+                        ctx.fail({"component": "_path_to_cats", "scheme": "drill", "stage": "numeric-level-labels"}, case,
+                                 "drill level %s holds no text: labels %r; labels that are no guess of a directory text %r; directory texts without an == label %r"
+                                 % (k, raw, bad_l, bad_t))
 
     if "strip" in (getattr(ctx, "gen_paths", None) or ()):       # the regenerated text itself, evaluated by the kernel, against the real function
         ok_paths = sorted({p for p in d_paths if L.coq_ascii_ok(p)})
@@ -390,6 +409,9 @@ def _run(ctx, pq):
             ctx.count("F.op", o)
         for kd in case["dist"]["kinds"]:
             ctx.count("F.partition_kind", kd)
+    # ---------------------------------------------------------------- G: twin datasets (harness/twins.py): same relative layout and partition
+    # column, values as text / as int, bool, float, timestamp; hive and drill; A then B and B then A in one process, against a fresh interpreter
+    TW.run(ctx, "harness.props.C08", [TW.gen_partition_case(rng, i) for i in range(10 if quick else 50)], stream="G.twins")
     # ---------------------------------------------------------------- F2: the generic handle-program runner (harness/handleprog.py, w3-reads)
     # on PARTITIONED hive datasets: derivations (slices, picks, pickle, copy, deepcopy) and failed appends that stream F does not have,
     # appended rows bringing partition values that sort between the existing ones; every observer answer of a live handle (rows, partition
@@ -534,7 +556,8 @@ def gen_column(rng, kind, n, drill):
         cats = {"int": rng.sample([1, 2, 3, 10, -4, 2**40], 3), "float": rng.sample([0.5, 2.0, -1.25, 1e10], 3), "bool": [True, False],
                 "ts": [pd.Timestamp("2020-01-01"), pd.Timestamp("2020-01-02 03:04:05.123456"), pd.Timestamp("1999-12-31 23:59:59")],
                 "i8": list(np.array(rng.sample([1, -3, 7, 100], 3), dtype="int8"))}[lt]
-        codes = [rng.randrange(2) for _ in range(n)]
+        used = rng.choice([2, len(cats)])          # unused categories, NULL keys
+        codes = [-1 if (nulls and rng.random() < 0.2) else rng.randrange(used) for _ in range(n)]
         return pd.Series(pd.Categorical.from_codes(codes, categories=cats))
     raise ValueError(kind)
 
@@ -599,7 +622,9 @@ def gen_frame_case(rng, confirm, i):
     n = rng.choice([0, 1, 2, 3, 5, 8, 13, 21, 34]) if i % 9 else rng.choice([0, 1])
     n_on = rng.choice([1, 1, 2, 2, 3])
     kinds = [rng.choice(["int", "int", "bool", "float", "time", "str", "strnum" if scheme == "hive" else "str", "cat",
-                         "intx", "boolx", "floatx", "strx", "timetz", "pct", "catnumtxt", "intshare"]) for _ in range(n_on)]
+                         "intx", "boolx", "floatx", "strx", "timetz", "pct", "catnumtxt", "intshare",
+                         # categoricals whose labels are numbers / booleans / timestamps: main stream since the label type is recorded (fix 34e2c68)
+                         "catnum"]) for _ in range(n_on)]
     which = i % 8 if confirm else -1
     if confirm:
         if which == 0:
@@ -963,6 +988,7 @@ H_POOLS = {
     "float": [0.5, 1.0, -2.25, 0.1, 3.0, 1e22, 2.5e-10],
     "time": [1577836800, 0, 1577836800 + 3723, 86400, 4102444800, 946684799],
     "cat": ["b", "a", "zz", "c", "é", "d", "x y", "q"],
+    "catint": [8, 1, 2, 30, -4, 5, 6, 100],          # categorical with INTEGER labels (label type recorded in the metadata)
 }
 
 
@@ -980,8 +1006,8 @@ def _h_column(kind, vals):
         if len(vals):
             a[np.array([v is None for v in vals], dtype=bool)] = np.datetime64("NaT")
         return pd.Series(a)
-    if kind == "cat":
-        cats = H_POOLS["cat"]
+    if kind in ("cat", "catint"):
+        cats = H_POOLS[kind]
         return pd.Series(pd.Categorical.from_codes([-1 if v is None else cats.index(v) for v in vals], categories=cats))
     return pd.Series(np.array(list(vals) + [None], dtype=object)[:-1])
 
@@ -991,13 +1017,13 @@ def gen_handle_case(rng, i):
     import pandas as pd
     scheme = rng.choice(["hive", "hive", "drill"])
     n_on = rng.choice([1, 1, 2])
-    kinds = [rng.choice(["int", "int", "str", "str", "bool", "float", "time", "cat"]) for _ in range(n_on)]
+    kinds = [rng.choice(["int", "int", "str", "str", "bool", "float", "time", "cat", "catint"]) for _ in range(n_on)]
     # a drill dataset knows its levels only as dir0, dir1, ...: frames appended to it must call them so
     names = rng.sample(["k", "part", "year", "K", "a.b"], n_on) if scheme == "hive" else ["dir%d" % j for j in range(n_on)]
     pools = []
     for kd in kinds:
         pool = list(H_POOLS[kd])
-        if rng.random() < 0.6 and kd != "cat":
+        if rng.random() < 0.6 and kd not in ("cat", "catint"):
             rng.shuffle(pool)
         pools.append(pool)
     n_batches = rng.choice([2, 2, 3, 4])
@@ -1008,7 +1034,7 @@ def gen_handle_case(rng, i):
         for nm, kd, pool in zip(names, kinds, pools):
             # later batches bring partition values not seen before (and repeat old ones)
             seen_upto = min(len(pool), 2 + (2 + (i % 3)) * b)
-            nullable = kd not in ("int", "bool") and rng.random() < 0.25
+            nullable = kd not in ("int", "bool") and rng.random() < 0.25     # (categoricals: code -1)
             vals = [None if (nullable and rng.random() < 0.2) else rng.choice(pool[:seen_upto]) for _ in range(n)]
             if b and seen_upto > 2 and n >= 2:
                 vals[0] = pool[seen_upto - 1]           # at least one new value
@@ -1038,6 +1064,9 @@ def gen_handle_case(rng, i):
         prog.append([rng.choice(obs)])
     return {"scheme": scheme, "on": names, "kinds": kinds, "frames": frames, "indexes": idx_specs, "prog": prog,
             "rgo": rng.choice([None, 2, 3]),
+            # the directory loses its summary files before the handle is opened: the handle comes from the file listing (footers merged),
+            # and the first edit through it writes the summary
+            "nometa": rng.random() < 0.25,
             "dist": {"scheme": scheme, "n_on": n_on, "kinds": kinds, "ops": [op[0] if op[0] != "append" else "append:" + op[3] for op in prog]}}
 
 
@@ -1125,6 +1154,10 @@ def check_handle_prog(case, root, pq, ctx=None, verbose=False):
     try:
         write(root, frames[0], file_scheme=scheme, partition_on=on, row_group_offsets=case.get("rgo"), write_index=False)
         admit(frames[0])
+        if case.get("nometa"):
+            for junk in ("_metadata", "_common_metadata"):
+                os.unlink(os.path.join(root, junk))
+            last_edit = "write+summary-removed"
         pf = ParquetFile(root)
         for step, op in enumerate(case["prog"]):
             what = "step %d %s (after %s)" % (step, op[0], last_edit)
@@ -1234,6 +1267,40 @@ def check_handle_prog(case, root, pq, ctx=None, verbose=False):
     return {"problems": problems, "trivial": not live, "cls": cls}
 
 
+# -------------------------------------------------------------------------------------------------- twins (harness/twins.py)
+def _tw8_read(root, case, which):
+    from fastparquet import ParquetFile
+    return L.twin_partition_answer(ParquetFile(root), case)
+
+
+def _tw8_partial(root, case, which):
+    from fastparquet import ParquetFile
+    pf = ParquetFile(root)
+    col = case["col"] if case.get("scheme", "hive") == "hive" else "dir0"
+    out = {"iter": sorted([int(i), L.canon(v)] for fr in pf.iter_row_groups() for i, v in zip(fr["id"], fr[col]))}
+    if len(pf.row_groups) > 1:
+        sub = pf[1:].to_pandas()
+        out["slice"] = sorted([int(i), L.canon(v)] for i, v in zip(sub["id"], sub[col]))
+    return out
+
+
+def _tw8_functions(root, case, which):
+    """the pure functions of the reader on the dataset's own paths / metadata / key texts"""
+    from fastparquet import ParquetFile, api, util
+    pf = ParquetFile(root)
+    paths = [rg.columns[0].file_path for rg in pf.row_groups]
+    sch, cats = api.paths_to_cats(paths, pf.partition_meta)
+    metas = list(pf.partition_meta.values())
+    return {"paths_to_cats": [sch, [[k, sorted(json.dumps(L.canon(v)) for v in vs)] for k, vs in cats.items()]],
+            "val_to_num": [L.canon(util.val_to_num(t, meta=metas[0] if metas else None)) for t in sorted(set(case["texts"]))],
+            "guess": [L.canon(util.val_to_num(t)) for t in sorted(set(case["texts"]))]}
+
+
+from harness import twins as TW       # noqa: E402
+twin_build = TW.partition_twins
+TWIN_OPS = {"read": _tw8_read, "partial": _tw8_partial, "functions": _tw8_functions, "read-again": _tw8_read}
+
+
 def _num(c):
     return {"b": int, "i": int, "f": float}[c[0]](c[1])
 
@@ -1245,7 +1312,7 @@ def _num_eq(a, b):
 
 def _replayable(case):
     if "prog" in case:
-        return {k: case[k] for k in ("scheme", "on", "kinds", "frames", "indexes", "prog", "rgo") if k in case}
+        return {k: case[k] for k in ("scheme", "on", "kinds", "frames", "indexes", "prog", "rgo", "nometa") if k in case}
     return {k: case[k] for k in ("scheme", "on", "rgo", "n", "frame", "index", "write_index") if k in case}
 
 
@@ -1255,10 +1322,12 @@ def replay(rep):
         first = (rep.get("no_longer_checks") or [{}])[0]
         print(json.dumps(rep, indent=1, default=repr)[:5000])
         case = first.get("detail", {}).get("case") if isinstance(first.get("detail"), dict) else None
-        if not (isinstance(case, dict) and ("frame" in case or "prog" in case or "handle_program" in case)):
+        if not (isinstance(case, dict) and ("frame" in case or "prog" in case or "handle_program" in case or "twins" in case)):
             return 1
     else:
         case = rep["case"]
+    if "twins" in case:
+        return TW.replay(case)
     if "handle_program" in case:
         from harness import handleprog as HP
         return HP.replay_case(case["handle_program"])
